@@ -159,6 +159,13 @@ def _optimize_contractions(relevant_obj_names: tuple[str],
         # remove the contracted names and indices
         remaining_pos = [pos for pos in range(len(relevant_obj_names))
                          if pos not in group]
+        # the contraction is only valid if none of the contracted indices
+        # occurs on any of the remaining objects: an index that occurs on
+        # more than two objects can only be contracted once all objects
+        # holding the index are part of the contraction.
+        if any(idx in relevant_obj_indices[pos]
+               for idx in contraction.contracted for pos in remaining_pos):
+            continue
         remaining_names = (contraction.contraction_name,
                            *(relevant_obj_names[pos] for pos in remaining_pos))
         remaining_indices = (contraction.target, *(relevant_obj_indices[pos]
